@@ -20,10 +20,10 @@ func (world) Components(p string) ([]string, []string) {
 	return []string{
 			"lib/runtime/storage.TrieState (Put/Get/Has/Delete/ClearPrefix/ClearPrefixLimit/NextKey/TrieEntries, SetChildStorage/GetChildStorage/ClearChildStorage/DeleteChild/DeleteChildLimit/ClearPrefixInChild/ClearPrefixInChildWithLimit/GetChildNextKey/GetKeysWithPrefixFromChild, StartTransaction/CommitTransaction/RollbackTransaction/Root/Trie) - two instances per run, driven in lockstep",
 			"lib/runtime/storage.storageDiff (snapshot, upsert, delete, clearPrefix, deleteChildLimit, clearPrefixInChild, upsertChild, deleteFromChild, applyToTrie)",
-			"pkg/trie/inmemory.InMemoryTrie as backend of the SECOND TrieState instance (and, freshly built, as root reference for it); what fails only there is recorded as a C02 observation (other_property_oracles_fired), not as a C08 violation",
+			"pkg/trie/inmemory.InMemoryTrie as backend of the verdict-giving TrieState instance (and, freshly built, as root reference)",
 		},
 		[]string{
-			"backend of the FIRST (verdict-giving) TrieState instance: mapTrie, the trie.Trie contract over ordered maps with storeutil.SpecRoot as Hash() and child roots stored as main entries; its iterator panics when polled 10000 times after the end of an iteration, which turns a non-terminating loop of TrieState into a reportable violation (oracle hang)",
+			"backend of the second TrieState instance (canary, driven first): mapTrie, the trie.Trie contract over ordered maps with storeutil.SpecRoot as Hash() and child roots stored as main entries; its iterator panics when polled 10000 times after the end of an iteration, which turns a non-terminating loop of TrieState into a reportable violation (oracle hang) before the real trie is touched; when the canary agrees with the model where the verdict instance does not, the class gets the prefix 'inmemory-only: '",
 			"the runtime issuing storage host calls (tape-driven workload following the call patterns of lib/runtime/wazero/imports.go: values copied, child-read errors mapped to None, empty next-key mapped to None, kill limit as little-endian bytes, Option::None limit as MaxUint32)",
 			"runtime trap / failed block execution (abort = rollback of all or of the innermost open transaction at a tape-chosen operation index)",
 		}
@@ -35,7 +35,7 @@ func (world) Budget(p, tier string) (int, time.Duration) {
 	return 150000, 40 * time.Second
 }
 
-const rule = "one run = two real storage.TrieState instances driven in lockstep with the same calls, the first (verdict) over a reference map backend, the second over the real pkg/trie/inmemory trie (a failure seen only there is a C02 observation and drops the second instance for the rest of the run); state version 0 or 1, 0-20 tape-chosen initial keys in the main trie and up to 3 child tries; 5-200 tape-chosen runtime storage calls (set/get/exists/delete/clear-prefix with no limit or every limit 0..n+1/next-key on main storage; set/get/exists/clear/kill with and without limit/clear-prefix with and without limit/next-key/key listing on child storage) interleaved with StartTransaction/CommitTransaction/RollbackTransaction/Root up to nesting depth 5, half of the runs block-style (always inside a transaction, commit or Root() at block boundaries), half also mutating with no transaction open; an abort (rollback of all or of the innermost open level) is injected at a tape-chosen operation index. Alphabet: <=10 main keys out of 16 (shared prefixes, keys that are prefixes of others, empty key, 0x10/0x1000/0x1001/0x11/0x1f, keys equal to child-trie names, ':'/':child'/':code'), child names out of {a,c1,ab,0x10}, child keys incl. the empty key and ':child_storage:default:a', prefixes = all prefixes of alphabet keys incl. the empty prefix for child tries; values of length 0,1,2,31,32,33,64. Oracle: a stack of overlay layers over a backend map (main and per-child namespaces, tombstones) implementing Substrate's OverlayedChanges/Ext semantics; after EVERY mutating call and transaction boundary every key of the alphabet is read back through Get, NextKey, TrieEntries, GetChildStorage, GetChildNextKey and GetKeysWithPrefixFromChild and compared; every rollback/abort is additionally compared, model-free, with the observation taken at the matching start; after every outermost commit and at the end of the run the committed main and child contents and Trie().Hash() are compared with the committed operations applied directly (first instance: independent storeutil.SpecRoot over main entries and child roots; second instance: root of a fresh in-memory trie fed the net contents, and SpecRoot as a C01 observation). For limited clears only what both generations of Substrate's limit_remove_from_backend agree on is asserted (all overlay keys gone, backend-only keys removed in lexicographic order, their number within the interval of the two generations, all-removed flag only when both agree, returned number only within [backend-only keys removed, backend keys visited + live overlay keys]). With no transaction open a limited clear must remove exactly min(limit,n) keys (which ones is adopted). Main-storage writes to keys under ':child_storage:' and main prefixes that are a prefix of ':child_storage:' are not generated (Substrate's Ext refuses them); such keys are only read (presence = child trie non-empty in the backend). A run is non-trivial if a rollback/abort discarded, or an outermost commit applied, a layer with at least one change; distinct = distinct event-kind sequence fingerprint."
+const rule = "one run = two real storage.TrieState instances driven in lockstep with the same calls: the verdict instance over the real pkg/trie/inmemory trie and a canary over a reference map backend (driven first; detects non-terminating loops; tells whether a failure lives in TrieState or below it; a failure seen only on the canary is an observation, not a verdict); state version 0 or 1, 0-20 tape-chosen initial keys in the main trie and up to 3 child tries; 5-200 tape-chosen runtime storage calls (set/get/exists/delete/clear-prefix with no limit or every limit 0..n+1/next-key on main storage; set/get/exists/clear/kill with and without limit/clear-prefix with and without limit/next-key/key listing on child storage) interleaved with StartTransaction/CommitTransaction/RollbackTransaction/Root up to nesting depth 5, half of the runs block-style (always inside a transaction, commit or Root() at block boundaries), half also mutating with no transaction open; an abort (rollback of all or of the innermost open level) is injected at a tape-chosen operation index. Alphabet: <=10 main keys out of 16 (shared prefixes, keys that are prefixes of others, empty key, 0x10/0x1000/0x1001/0x11/0x1f, keys equal to child-trie names, ':'/':child'/':code'), child names out of {a,c1,ab,0x10}, child keys incl. the empty key and ':child_storage:default:a', prefixes = all prefixes of alphabet keys incl. the empty prefix for child tries; values of length 0,1,2,31,32,33,64, every non-empty value unique in the run. Inputs that run into KNOWN unrepaired defects are generated in 1 run of 6 each (tape knobs) and end the run with a class carrying the defect's prefix: prefixes whose last byte has a zero low nibble ('zero-low-nibble-prefix: ', in-memory trie, C02) and limited kill/prefix clear of a child trie with no open transaction ('child-clear-without-transaction: ', TrieState); two child tries with identical contents (C04) are never generated (child tries get empty values only in runs with at most one child trie). Oracle: a stack of overlay layers over a backend map (main and per-child namespaces, tombstones) implementing Substrate's OverlayedChanges/Ext semantics; after EVERY mutating call and transaction boundary every key of the alphabet is read back through Get, NextKey, TrieEntries, GetChildStorage, GetChildNextKey and GetKeysWithPrefixFromChild and compared; every rollback/abort is additionally compared, model-free, with the observation taken at the matching start; after every outermost commit and at the end of the run the committed main and child contents and Trie().Hash() are compared with the committed operations applied directly (root of a fresh in-memory trie fed the net contents; storeutil.SpecRoot as a C01 observation; canary: SpecRoot). For limited clears only what both generations of Substrate's limit_remove_from_backend agree on is asserted (all overlay keys gone, backend-only keys removed in lexicographic order, their number within the interval of the two generations; oracle clear-result-all: flag must be false when a backend-only key survived, true when nothing survived and both generations say so; oracle clear-result-count: number within [backend-only keys removed, backend keys visited + live overlay keys]; after these two oracles state and model still agree, so a known finding may continue). With no transaction open a limited clear must remove exactly min(limit,n) keys (which ones is adopted). Main-storage writes to keys under ':child_storage:' and main prefixes that are a prefix of ':child_storage:' are not generated (Substrate's Ext refuses them); such keys are only read (presence = child trie non-empty in the backend). A run is non-trivial if a rollback/abort discarded, or an outermost commit applied, a layer with at least one change; distinct = distinct event-kind sequence fingerprint."
 
 func TestVerif(t *testing.T) {
 	// runs are tiny and allocation-heavy (every read is rendered); collect less often
